@@ -15,6 +15,7 @@ import RTV.Drv.DtRes
 import RTV.Drv.Span
 import RTV.Drv.UnitExtract
 import RTV.Drv.Periods
+import RTV.Drv.Periods2
 import RTV.Drv.DtPeriod
 import RTV.Drv.Holiday
 import RTV.Drv.Durations
@@ -42,6 +43,7 @@ def dispatch (line : String) : String :=
       <|> dispatchTimex op args
       <|> dispatchCal op args
       <|> dispatchPeriods op args
+      <|> dispatchPeriods2 op args
       <|> dispatchDtPeriod op args
       <|> dispatchHoliday op args
       <|> dispatchDurations op args
